@@ -217,6 +217,10 @@ class FD:
             return v
         if e.id in _BUILTIN_TYPES:
             return _BUILTIN_TYPES[e.id]
+        import builtins as _b
+        bt = getattr(_b, e.id, None)
+        if isinstance(bt, type) and issubclass(bt, BaseException):
+            return bt     # builtin exception classes are data for handler matching / isinstance hooks
         raise Inconclusive('fdeval: unbound name %s' % e.id)
 
     def module_name(self, name):
@@ -311,6 +315,9 @@ class FD:
             if e.attr in base.attrs:
                 return base.attrs[e.attr]
             if '__classdef__' in base.attrs and not (e.attr.startswith('__') and e.attr.endswith('__')):
+                cv = self.class_constant(base, e.attr)
+                if cv is not _MISSING:
+                    return cv
                 ga = self.class_method(base, '__getattr__')
                 if ga is not None:
                     return ga(e.attr)   # the class's own __getattr__, interpreted
@@ -737,6 +744,20 @@ class FD:
             o.attrs['__open__'] = True
             return o
 
+    def class_constant(self, obj, attr):
+        """Value of a class-level assignment `attr = <expr>` in the class the object was bound to."""
+        cd = obj.attrs.get('__classdef__')
+        for st in (cd.body if cd is not None else []):
+            if isinstance(st, ast.Assign) and any(isinstance(t, ast.Name) and t.id == attr for t in st.targets):
+                self._mods.append(getattr(cd, '_module', None) or (self._mods[-1] if self._mods else None))
+                try:
+                    return self.eval(st.value, {})
+                except Inconclusive:
+                    return _MISSING
+                finally:
+                    self._mods.pop()
+        return _MISSING
+
     def class_method(self, obj, attr):
         """A method of the class the object was bound to (or of its pedal base classes) that the harness did not
         bind explicitly - e.g. a private helper a refactoring extracted."""
@@ -804,6 +825,8 @@ class FD:
             m = self.class_method(recv, attr)
             if m is not None:
                 return m(*args, **kwargs)
+            if '__unknown_method__' in recv.attrs:
+                return recv.attrs['__unknown_method__'](attr, *args, **kwargs)
             if recv.attrs.get('__closed__'):
                 raise Raised('AttributeError', '%r object has no attribute %r' % (recv._name, attr))
         if recv is UNKNOWN:
@@ -1060,11 +1083,26 @@ class FD:
 
     NON_EXCEPTION_KINDS = ('KeyboardInterrupt', 'SystemExit', 'GeneratorExit', 'BaseException')
 
-    def handler_matches(self, h, raised):
+    def handler_matches(self, h, raised, env=None):
         from .astutil import dotted
+        import builtins
         if h.type is None:
             return True
-        names = [dotted(x) for x in (h.type.elts if isinstance(h.type, ast.Tuple) else [h.type])]
+        exprs = list(h.type.elts if isinstance(h.type, ast.Tuple) else [h.type])
+        names = []
+        for x in exprs:
+            n = dotted(x)
+            if n and '.' not in n and isinstance(getattr(builtins, n, None), type):
+                names.append(n)
+                continue
+            # a constant naming the classes (module level, class level or local): evaluate it
+            try:
+                v = self.eval(x, env if env is not None else {})
+            except Inconclusive:
+                names.append(n)
+                continue
+            for c in (v if isinstance(v, (tuple, list)) else [v]):
+                names.append(c.__name__ if isinstance(c, type) else (c if isinstance(c, str) else n))
         for n in names:
             if n == 'BaseException':
                 return True
@@ -1084,7 +1122,7 @@ class FD:
                 self.block(st.body, env)
             except Raised as r:
                 for h in st.handlers:
-                    if self.handler_matches(h, r):
+                    if self.handler_matches(h, r, env):
                         if h.name:
                             exc = r.payload if r.payload is not None else Obj('exception', exc_kind=r.kind,
                                                                              detail=r.detail)
